@@ -126,13 +126,19 @@ def spec_check(c, out):
         return "SIGPIPE raised in the application thread"
     if any(l.startswith("fail") or l.startswith("badcmd") for l in o):
         return "harness could not set the session up: " + " | ".join(o)[:200]
-    for l in d:
-        m = re.match(r"diag cpu_ms=(\d+)", l)
-        if m and int(m.group(1)) > CPU_LIMIT_MS:
-            return "watchdog: %s ms of CPU for one session (spinning?)" % m.group(1)
+    if any(l == "fds back=0" for l in o):
+        return ("after the hostile peers were gone the process still held their descriptors "
+                "(%s): each dropped connection must release everything it acquired%s" % (
+                    "; ".join(x for x in d if "flood" in x),
+                    "; and the well-behaved control connection was not served" if any(l == "ctl ok=0" for l in o) else ""))
     if any(l == "ctl ok=0" for l in o):
         return "the well-behaved control connection was not served after the hostile session"
-    if c.kind == "wshs":
+    for l in d:
+        m = re.match(r"diag cpu_ms=(\d+)", l)
+        # a flood is 200 sessions in one command
+        if m and int(m.group(1)) > CPU_LIMIT_MS * (4 if c.kind == "flood" else 1):
+            return "watchdog: %s ms of CPU for one session (spinning?)" % m.group(1)
+    if c.kind in ("wshs", "flood"):
         return None
     rx = [re.match(r"rx hdr=(\S+) body=(\S+)", l) for l in o]
     rx = [(m.group(1), unhx(m.group(2))) for m in rx if m]
@@ -357,6 +363,16 @@ def gen_sessions(rng, tier):
         part = (b"GET / HTTP/1.1\r\nHost: x\r\n"[:rng.choice([0, 3, 14, 27])] if tran == "ws" else sp_hdr(peer)[:rng.choice([0, 1, 3, 7])])
         cases.append(Line("stall", "stall", "stall %s %s %s %d %s %d %d" % (tran, proto, hx(part), rng.choice([10001, 11000, 60000]),
                                                                        "6b" if tran == "ws" else hx(ctl_payload(proto)), me, peer)))
+    # (i) resource exhaustion: RLIMIT_NOFILE lowered to 64, more than 3x that many hostile sessions in sequence (not an SP
+    # header, disconnect before 8 bytes, wrong protocol id, length 2^62, truncated frame; for ws: not HTTP, a torn request);
+    # afterwards the descriptor count is back at its baseline and a well-behaved peer is served under the same limit
+    for rep_i in range(1 if q else 4):
+        for tran in ["tcp", "ipc", "sfd", "ws"]:
+            proto = "pair0" if tran == "ws" else rng.choice(["pull", "sub", "bus", "xrep"])
+            me, peer = PT[proto]
+            kinds = "hs" if tran == "ws" else "".join(rng.sample("bspot", 5)) if rep_i else "bspot"
+            cases.append(Line("flood", "flood", "flood %s %s 64 %d %s %s %d %d" % (
+                tran, proto, 200 if tran != "sfd" else 200, kinds, "6b" if tran == "ws" else hx(ctl_payload(proto)), me, peer)))
     # (f) single-pipe protocols: the listener must take a new peer after the hostile one was dropped
     for i in range(10 if q else 200):
         tran, role = rng.choice(TR[:4])
